@@ -8,18 +8,22 @@
 //	e      deliver a notification for the config file (then a second, ignored one, as a barrier)
 //	E      same, but with an unclean path ("dir/./config.yml")
 //	o      deliver a notification for another file (ignored by the loop)
-//	x:<k>  make the watcher fail (k = err | chan | dir); the loop re-attaches on its next tick
+//	x:<k>  make the watcher fail (k = err | chan | dir | dir2); the loop re-attaches on its next tick
 //
 // A write without a following e/E is a change whose notification was LOST; extra e's are duplicated/delayed
-// notifications.  Compared with the model: only the SEQUENCE OF CONTENTS seen by the callback plus one
-// generous bucket ("the last callback came within 3x(R+debounce) of the last file operation").
+// notifications.  Compared with the model: the SEQUENCE OF CONTENTS seen by the callback, the callback instants
+// in 100 ms buckets (floor((ms+10)/100): all nominal expiry instants sit 0–20 ms after a multiple of 100 ms, so
+// a callback may be up to ~70 ms late without changing its bucket) and one generous bucket ("the last
+// callback came within 3x(R+debounce) of the last file operation").
 //
 // Determinism on a loaded machine: scripts come from two structured families whose operations sit far from
 // every instant at which a timer of the loop can expire —
-//   tickless: R = 100 s (no reconcile tick during the script); bursts of back-to-back operations (ordered by
-//             channel handshakes, not by time) every 350 ms, so only the 100 ms debounce runs between bursts;
-//   ticked  : R ∈ {600,700,800} ms; per tick period at most one lone write at tick+50 ms (between the tick's
-//             fingerprint and its debounce expiry, tolerance ±40 ms) and one burst at tick+300 ms (±70 ms).
+//
+//	tickless: R = 100 s (no reconcile tick during the script); bursts of back-to-back operations (ordered by
+//	          channel handshakes, not by time) every 350 ms, so only the 100 ms debounce runs between bursts;
+//	ticked  : R ∈ {600,700,800} ms; per tick period at most one lone write at tick+50 ms (between the tick's
+//	          fingerprint and its debounce expiry, tolerance ±40 ms) and one burst at tick+300 ms (±70 ms).
+//
 // Every script is run as independent instances and emitted only when two clean instances (all operations
 // within maxDevMs of their nominal time) agree; otherwise the case is emitted as `unstable` (counted, never
 // compared).  The Lean driver additionally refuses to predict a script in which an operation is nominally
@@ -112,23 +116,48 @@ func (w *fakeWatcher) isClosed() bool {
 
 type outcome struct {
 	seq    []string
+	at     []int // callback instants in 100 ms buckets: floor((ms+10)/100) — timers never fire early
 	clean  bool
 	inTime bool
+	// the loop did not close the watcher after a scripted failure (terminal outcome of the instance)
+	notClosed bool
 }
 
 func (o outcome) String() string {
-	s := "_"
+	if o.notClosed {
+		return "watcher-not-closed"
+	}
+	s, at := "_", "_"
 	if len(o.seq) > 0 {
 		s = strings.Join(o.seq, ".")
+		parts := make([]string, len(o.at))
+		for i, b := range o.at {
+			parts[i] = fmt.Sprint(b)
+		}
+		at = strings.Join(parts, ".")
 	}
 	it := 0
 	if o.inTime {
 		it = 1
 	}
-	return fmt.Sprintf("seq=%s intime=%d", s, it)
+	return fmt.Sprintf("seq=%s intime=%d at=%s", s, it, at)
 }
 
 func contentBytes(c string) []byte { return []byte("cfg: " + c + "\n") }
+
+// writeInPlace overwrites the (equally long) content without truncating first: on ext4 a truncate-then-write
+// (and a rename over an existing file) forces a synchronous flush, which under I/O load takes tens of ms.
+func writeInPlace(path string, b []byte) error {
+	f, err := os.OpenFile(path, os.O_WRONLY|os.O_CREATE, 0o600)
+	if err != nil {
+		return err
+	}
+	_, err = f.WriteAt(b, 0)
+	if cerr := f.Close(); err == nil {
+		err = cerr
+	}
+	return err
+}
 
 func runInstance(dir string, sc script) (out outcome) {
 	out.clean = true
@@ -168,6 +197,10 @@ func runInstance(dir string, sc script) (out outcome) {
 			}
 		case errors.Is(err, os.ErrNotExist):
 			c = "-"
+		default:
+			if os.Getenv("C38_DEBUG") != "" {
+				fmt.Fprintf(os.Stderr, "c38 debug: read error %v\n", err)
+			}
 		}
 		mu.Lock()
 		seq = append(seq, c)
@@ -209,13 +242,17 @@ func runInstance(dir string, sc script) (out outcome) {
 		}
 		if dev := time.Since(target); dev > maxDevMs*time.Millisecond {
 			out.clean = false
+			if os.Getenv("C38_DEBUG") != "" {
+				fmt.Fprintf(os.Stderr, "c38 debug: late op %d:%s by %v\n", o.t, o.kind, dev)
+			}
 		}
 		mu.Lock()
 		w := cur
 		mu.Unlock()
+		opStart := time.Now()
 		switch o.kind {
 		case "w":
-			if err := os.WriteFile(path, contentBytes(o.arg), 0o600); err != nil {
+			if err := writeInPlace(path, contentBytes(o.arg)); err != nil {
 				panic(err)
 			}
 			lastFsOp = time.Since(start)
@@ -260,24 +297,39 @@ func runInstance(dir string, sc script) (out outcome) {
 				}
 			case "chan":
 				w.evOnce.Do(func() { close(w.events) })
+			case "dir2": // the directory itself, spelled with a trailing separator
+				send(w, fsnotify.Event{Name: dir + string(filepath.Separator), Op: fsnotify.Rename})
 			default: // dir
 				send(w, fsnotify.Event{Name: dir, Op: fsnotify.Remove})
 			}
 			select {
 			case <-w.closed:
-			case <-time.After(syncWaitMs * time.Millisecond):
-				out.clean = false
+			case <-time.After(250 * time.Millisecond):
+				// the loop took the failure but did not drop the watcher: an outcome, not noise
+				out.notClosed = true
 			}
 		}
+		if out.notClosed {
+			break
+		}
+		if d := time.Since(opStart); d > 20*time.Millisecond && os.Getenv("C38_DEBUG") != "" {
+			fmt.Fprintf(os.Stderr, "c38 debug: slow op %s:%s took %v\n", o.kind, o.arg, d)
+		}
 	}
-	if d := time.Until(start.Add(time.Duration(sc.end) * time.Millisecond)); d > 0 {
+	if d := time.Until(start.Add(time.Duration(sc.end) * time.Millisecond)); d > 0 && !out.notClosed {
 		time.Sleep(d)
 	}
 	cancel()
 	time.Sleep(5 * time.Millisecond)
 	mu.Lock()
 	defer mu.Unlock()
+	if out.notClosed {
+		out.clean = true
+	}
 	out.seq = append([]string(nil), seq...)
+	for _, d := range cbTimes {
+		out.at = append(out.at, int((d.Milliseconds()+10)/100))
+	}
 	if os.Getenv("C38_DEBUG") != "" {
 		fmt.Fprintf(os.Stderr, "c38 debug: %s clean=%v seq=%v cb=%v\n", sc.line(), out.clean, seq, cbTimes)
 	}
@@ -307,7 +359,7 @@ func genBurst(r *hx.Rng, t0, n, lossy int) []op {
 		case k < 54:
 			o.kind = "d"
 		case k < 61:
-			o.kind, o.arg = "x", hx.Pick(r, []string{"err", "chan", "dir"})
+			o.kind, o.arg = "x", hx.Pick(r, []string{"err", "chan", "dir", "dir2"})
 		case k < 65:
 			o.kind = "o"
 		case k < 69:
@@ -334,12 +386,12 @@ func genScript(r *hx.Rng, maxBurst int) script {
 	if r.Intn(100) < 40 {
 		sc.class, sc.R = "tickless", tickless
 		n := 1 + r.Intn(5)
-		t := 50
+		t := 100
 		for i := 0; i < n; i++ {
 			sc.ops = append(sc.ops, genBurst(r, t, 1+r.Intn(maxBurst), lossy)...)
-			t += 350
+			t += 400
 		}
-		sc.end = t + 100
+		sc.end = t + 50
 		return sc
 	}
 	sc.class, sc.R = "ticked", hx.Pick(r, []int{600, 700, 800})
@@ -377,6 +429,7 @@ func fixedScripts() []script {
 		}
 		return script{class: class, R: R, init: init, ops: ops, end: (last/R+1)*R + debounceMs*2 + 250}
 	}
+	withEnd := func(sc script, end int) script { sc.end = end; return sc }
 	W := func(t int, c string) op { return op{t, "w", c} }
 	Rp := func(t int, c string) op { return op{t, "r", c} }
 	D := func(t int) op { return op{t, "d", ""} }
@@ -388,16 +441,18 @@ func fixedScripts() []script {
 		// DESIGN §11 row 19: the fingerprint is taken when reconciling (tick at 600 / notification at 301), the
 		// content changes again before the debounce expires and THAT notification is lost
 		mk("witness", 600, "a", W(300, "b"), W(650, "c")),
-		mk("witness", tickless, "a", W(50, "b"), E(51), W(52, "c"), E(400)),
+		mk("witness", tickless, "a", W(100, "b"), E(101), W(102, "c"), E(500)),
 		mk("witness", 600, "a", W(300, "b"), E(301), W(302, "c")),
 		mk("witness", 600, "a", W(300, "b"), E(301), W(302, "a")), // back to the evaluated content
 		mk("witness", 600, "a", Rp(300, "b"), E(301), D(302)),
 		mk("witness", 600, "-", W(300, "b"), E(301), W(302, "c")),
+		// pre-fix: the callback reads c under fingerprint b, the file returns to b and is never reloaded
+		withEnd(mk("witness", 700, "a", W(300, "b"), E(301), W(302, "c"), W(450, "b")), 1500),
 		// ordinary behaviour
 		mk("basic", 600, "a"),
-		mk("basic", 600, "a", W(300, "b")),          // notification lost: reconciliation finds it
-		mk("basic", 600, "a", W(300, "b"), E(301)),  // delivered
-		mk("basic", 600, "a", W(300, "a"), E(301)),  // rewritten with identical content
+		mk("basic", 600, "a", W(300, "b")),                                  // notification lost: reconciliation finds it
+		mk("basic", 600, "a", W(300, "b"), E(301)),                          // delivered
+		mk("basic", 600, "a", W(300, "a"), E(301)),                          // rewritten with identical content
 		mk("basic", 700, "a", W(300, "b"), E(301), E(302), E(303), E(1000)), // duplicated / delayed
 		mk("basic", 600, "a", W(300, "b"), E(301), W(302, "c"), E(303)),     // debounce restarts
 		mk("basic", 600, "a", D(300), E(301), W(900, "a"), E(901)),          // delete, re-create with the old content
@@ -405,8 +460,9 @@ func fixedScripts() []script {
 		mk("basic", 600, "a", X(300, "err"), W(301, "b"), E(302), E(900), W(901, "c"), E(902)),
 		mk("basic", 600, "a", X(300, "chan"), W(301, "b")),
 		mk("basic", 600, "a", X(300, "dir"), W(301, "b"), O(302), EU(303)),
+		mk("basic", tickless, "a", X(100, "dir2"), W(101, "b"), E(102)),
 		mk("basic", 600, "-", W(300, "a"), EU(301), D(900), O(901)),
-		mk("basic", tickless, "a", W(50, "b"), EU(51), W(400, "c"), O(401), D(750), E(751)),
+		mk("basic", tickless, "a", W(100, "b"), EU(101), W(500, "c"), O(501), D(900), E(901)),
 	}
 }
 
@@ -513,7 +569,7 @@ func main() {
 	run.Extra["reruns"] = reruns
 	run.Extra["debounce_ms"] = debounceMs
 	run.Finish()
-	if unstable*5 > len(jobs) {
+	if unstable*2 > len(jobs) {
 		fmt.Fprintf(os.Stderr, "c38: %d of %d scripts unstable — machine too loaded for a meaningful run\n", unstable, len(jobs))
 		os.Exit(3)
 	}
